@@ -206,6 +206,11 @@ class _Builder(object):
             pool = [v for v in pool if v not in (0, 1)]
         vals = self.draw(st.lists(st.one_of(st.sampled_from(pool), st.integers(2, (1 << 32) - 1)),
                                   min_size=n, max_size=n, unique=True))
+        if len(vals) >= 2 and self.draw(st.integers(0, 2)) == 0:
+            # a value that differs from an earlier one only in a high bit / by a power of two (masks, truncations)
+            rel = vals[0] ^ (1 << self.draw(st.sampled_from([31, 30, 29, 28, 24, 16, 8])))
+            if rel not in vals and (self.o.enum_zero_one is not False or rel not in (0, 1)):
+                vals[self.draw(st.integers(1, len(vals) - 1))] = rel
         members = []
         for i, v in enumerate(vals):
             en = '%s_%s' % (name, 'abcd'[i])
